@@ -194,8 +194,50 @@ def explore_intervals(f, start_env, on_store=None, max_states=5000):
         for s in succs:
             if (b, s) in visited:
                 continue
-            stack.append((s, dict(env), b, visited | {(b, s)}))
+            e2 = dict(env)
+            if t.op == "br" and t.get("cond") and len(succs) == 2 and t.ops[0][0] == "i":
+                # a forked comparison with a constant narrows the compared value on either side
+                C = f.inst(t.ops[0])
+                sl = t.get("succ")
+                if C is not None and C.op == "icmp" and sl[0] != sl[1]:
+                    _refine(e2, C, s == sl[0], getiv)
+            stack.append((s, e2, b, visited | {(b, s)}))
     return out
+
+
+def _refine(env, C, truth, getiv):
+    pred = C.get("pred")
+    x, y = tuple(C.ops[0]), tuple(C.ops[1])
+    a = getiv(x)
+    bb = getiv(y, a.bits)
+    a = getiv(x, bb.bits)
+    swap = {"ult": "ugt", "ugt": "ult", "ule": "uge", "uge": "ule", "eq": "eq", "ne": "ne"}
+    neg = {"ult": "uge", "uge": "ult", "ugt": "ule", "ule": "ugt", "eq": "ne", "ne": "eq"}
+    if pred not in swap:
+        return
+    for (v, iv, other, p) in ((x, a, bb, pred), (y, bb, a, swap[pred])):
+        if v[0] not in ("i", "a") or other.lo != other.hi:
+            continue
+        k = other.lo
+        q = p if truth else neg[p]
+        lo, hi = iv.lo, iv.hi
+        if q == "ult":
+            hi = min(hi, k - 1)
+        elif q == "ule":
+            hi = min(hi, k)
+        elif q == "ugt":
+            lo = max(lo, k + 1)
+        elif q == "uge":
+            lo = max(lo, k)
+        elif q == "eq":
+            lo, hi = max(lo, k), min(hi, k)
+        elif q == "ne":
+            if lo == k:
+                lo += 1
+            if hi == k:
+                hi -= 1
+        if lo <= hi:
+            env[v] = Iv(lo, hi, iv.bits)
 
 
 # ---------------------------------------------------------------------------
